@@ -1090,6 +1090,15 @@ def gen_C19(rng, tier):
             g, compl = gaps[ci - (nfam - len(gaps))]; n = g * rng.choice([2100, 4200, 8000])
             v = sum(1 << i for i in range(0, n, g))
             if compl: v = ((1 << n) - 1) ^ v
+        elif ci == 0:
+            # the documented worst case of the select index: 1024 consecutive ones alternating with 1024 ones whose ends are
+            # exactly 65536 apart (stored verbatim), so that every other term of the bound has to stay within its own allowance
+            k = 4 if tier == 'quick' else 12; v = 0; pos = 0
+            for _ in range(k):
+                v |= ((1 << 1024) - 1) << pos; pos += 1024
+                for i in range(1023): v |= 1 << (pos + 64 * i)
+                v |= 1 << (pos + 65536); pos += 65537
+            n = pos + rng.randrange(0, 64)
         elif fam == 0: v = (1 << n) - 1                       # all ones: most select1 hints
         elif fam == 1: v = 0                                 # all zeros: most select0 hints
         elif fam == 2: n, v = darray_bits(rng, tier)         # alternating dense/sparse blocks
